@@ -115,49 +115,51 @@ func ReqQueryRename(req *bfe_basic.Request, oldName string, newName string) {
 	req.HttpRequest.URL.RawQuery = rawQuery[1:]
 }
 
+// queryFilter removes from rawQuery every "&"-separated parameter whose key
+// (the text before the first "=", or the whole parameter if there is no "=",
+// percent/plus-decoded as url.ParseQuery does) is selected by del.
+// Parameters whose key cannot be decoded are handled as del("", false) says.
+func queryFilter(rawQuery string, del func(key string, ok bool) bool) string {
+	if rawQuery == "" {
+		return ""
+	}
+
+	kept := make([]string, 0)
+	for _, param := range strings.Split(rawQuery, "&") {
+		key := param
+		if i := strings.Index(param, "="); i >= 0 {
+			key = param[:i]
+		}
+		key, err := url.QueryUnescape(key)
+		if del(key, err == nil) {
+			continue
+		}
+		kept = append(kept, param)
+	}
+
+	return strings.Join(kept, "&")
+}
+
 // ReqQueryDel deletes some keys from query
 func ReqQueryDel(req *bfe_basic.Request, keys []string) {
-	// add "&" prefix and suffix to simplify process
-	rawQuery := "&" + req.HttpRequest.URL.RawQuery + "&"
-
 	// parse the query
 	queries := queryParse(req)
 
-	// delete some keys from queries
+	// prepare map for keys
+	keysMap := make(map[string]bool)
 	for _, key := range keys {
+		keysMap[key] = true
 		queries.Del(key)
-
-		for {
-			// find key start &key=
-			start := strings.Index(rawQuery, "&"+key+"=")
-			if start == -1 {
-				break
-			}
-
-			// find value end
-			end := strings.Index(rawQuery[start+1:], "&")
-			if end == -1 {
-				break
-			}
-
-			// remove start:start+end part
-			rawQuery = rawQuery[:start] + rawQuery[start+end+1:]
-		}
 	}
 
-	// set rawQuery, remove "&" prefix and suffix
-	if len(rawQuery) == 1 {
-		req.HttpRequest.URL.RawQuery = ""
-	} else {
-		req.HttpRequest.URL.RawQuery = rawQuery[1 : len(rawQuery)-1]
-	}
+	// delete the keys from rawQuery, in whatever form they are written (a=1, %61=1, a)
+	req.HttpRequest.URL.RawQuery = queryFilter(req.HttpRequest.URL.RawQuery, func(key string, ok bool) bool {
+		return ok && keysMap[key]
+	})
 }
 
 // ReqQueryDelAllExcept deletes all keys from query, except some keys
 func ReqQueryDelAllExcept(req *bfe_basic.Request, keys []string) {
-	// add "&" prefix and suffix to simplify process
-	rawQuery := "&" + req.HttpRequest.URL.RawQuery + "&"
-
 	// parse the query
 	queries := queryParse(req)
 
@@ -172,30 +174,11 @@ func ReqQueryDelAllExcept(req *bfe_basic.Request, keys []string) {
 		if _, ok := keysMap[key]; ok {
 			continue
 		}
-
 		queries.Del(key)
-		for {
-			// find key start
-			start := strings.Index(rawQuery, "&"+key+"=")
-			if start == -1 {
-				break
-			}
-
-			// find value end
-			end := strings.Index(rawQuery[start+1:], "&")
-			if end == -1 {
-				break
-			}
-
-			// remove start:start+end part
-			rawQuery = rawQuery[:start] + rawQuery[start+end+1:]
-		}
 	}
 
-	// set rawQuery, remove "&" prefix and suffix
-	if len(rawQuery) == 1 {
-		req.HttpRequest.URL.RawQuery = ""
-	} else {
-		req.HttpRequest.URL.RawQuery = rawQuery[1 : len(rawQuery)-1]
-	}
+	// keep only the given keys in rawQuery
+	req.HttpRequest.URL.RawQuery = queryFilter(req.HttpRequest.URL.RawQuery, func(key string, ok bool) bool {
+		return !(ok && keysMap[key])
+	})
 }
